@@ -646,6 +646,12 @@ class C19(Property):
 
     def small_js(self, nlines, extra=False):
         i = 0
+        if not extra:
+            # the line break the alignment loop looks for lies in its 1st / 2nd / 3rd block of 4096 characters
+            for w in (4090, 4094, 4095, 4096, 4097, 8190, 8191, 8192, 8193, 12289):
+                c = b'1\n"' + b'x' * w + b'"\n20\n'
+                for num, den in ((1, 1000), (1, 2), (1, 3)):
+                    yield {'k': 'js', 'c': hx(c), 'num': num, 'den': den, 'ign': 1, 'mode': 't'}
         for n in range(1, nlines + 1):
             for toks in itertools.product(self.JS_TOKENS, repeat=n):
                 for sep in (b'\n', b'\r\n'):
